@@ -309,7 +309,9 @@ pub(crate) fn parse_kdb(data: &[u8], db_key: &DatabaseKey) -> Result<Database, D
     let key_elements = db_key.get_key_elements()?;
     let key_elements: Vec<&[u8]> = key_elements.iter().map(|v| &v[..]).collect();
     let composite_key = if key_elements.len() == 1 {
-        let key_element: [u8; 32] = key_elements[0].try_into().unwrap();
+        let key_element: [u8; 32] = key_elements[0]
+            .try_into()
+            .map_err(|_| DatabaseKeyError::InvalidKeyFile)?;
         GenericArray::from(key_element) // single pass of SHA256, already done before the call to parse()
     } else {
         calculate_sha256(&key_elements)? // second pass of SHA256
@@ -338,7 +340,11 @@ pub(crate) fn parse_kdb(data: &[u8], db_key: &DatabaseKey) -> Result<Database, D
     let payload_padded = outer_cipher_config
         .get_cipher(&master_key, header.encryption_iv.as_ref())?
         .decrypt(payload_encrypted)?;
-    let padlen = payload_padded[payload_padded.len() - 1] as usize;
+    // an empty payload, or a padding length larger than the payload, cannot come from the right key
+    let padlen = match payload_padded.last() {
+        Some(b) if (*b as usize) <= payload_padded.len() => *b as usize,
+        _ => return Err(DatabaseKeyError::IncorrectKey.into()),
+    };
     let payload = &payload_padded[..payload_padded.len() - padlen];
 
     // Check if we decrypted correctly
